@@ -128,7 +128,7 @@ pub fn main(args: &[String]) -> i32 {
                 for mode in ["plugin", "app", "multiset"] {
                     let mut t = s.clone();
                     t["mode"] = json!(mode);
-                    run_scenario(&mut out, &t);
+                    guarded(&mut out, |o| run_scenario(o, &t));
                 }
             } else {
                 run_scenario(&mut out, &s);
@@ -139,7 +139,7 @@ pub fn main(args: &[String]) -> i32 {
         let mut r = rng(17);
         for _ in 0..n {
             let s = gen(&mut r);
-            run_scenario(&mut out, &s);
+            guarded(&mut out, |o| run_scenario(o, &s));
         }
     }
     out.flush();
